@@ -201,6 +201,24 @@ impl Prop for C06 {
                 }
             },
         ));
+        v.push(Scope::new(
+            "blank-kinds",
+            "drawings whose blanks are a tab, a no-break space, an ideographic space (two columns wide) or an em space, as indentation and between shapes x 24 offsets (a blank is one blank wherever it stands)",
+            |f| {
+                for b in ['\t', '\u{a0}', '\u{3000}', '\u{2003}'] {
+                    for d in [
+                        format!("{b}+--+\n{b}|  |\n{b}+--+"),
+                        format!("+-+{b}+-+\n| |{b}| |\n+-+{b}+-+"),
+                        format!("a{b}b"),
+                        format!("-{b}->"),
+                        format!("{b}{b}*--o\n{b}(_)"),
+                        format!("ab{b}{b}cd\n  {b}--"),
+                    ] {
+                        f(Case::sn(d, vec![1]));
+                    }
+                }
+            },
+        ));
         let pair_off = if tier == Tier::Quick { 0 } else { 1 };
         v.push(Scope::new(
             "nbhd2",
